@@ -219,6 +219,17 @@ func VerifC02History() {
 	}
 	verifCover("policy-configured")
 	w.checkC02()
+	// fixed prefix of the history: containers of type a (by annotation) in
+	// their own pods, 500 mCPU each
+	for k := 0; k < verifParam("prefix", 0); k++ {
+		c := w.newContainerOf(4, 500)
+		if err := w.p.AllocateResources(c); err != nil {
+			return
+		}
+		w.member[len(w.ctrs)-1] = true
+		w.checkC02()
+	}
+	verifCover("prefix-done")
 	ops := verifParam("ops", 2)
 	for k := 0; k < ops; k++ {
 		op := 0
